@@ -21,19 +21,19 @@ worker_init = symfam.worker_init
 
 
 def floors(tier):
-    return {NAME: 400 if tier == "quick" else 5000}
+    return {NAME: 400 if tier == "quick" else 12000}
 
 
 def gen_cases(tier, seed):
     pseudo = symfam.gen_pseudo_cases(tier, seed, 5, 1, n_pres=2) if tier == "quick" else \
-        symfam.gen_pseudo_cases(tier, seed, 5, 5, n_pres=3, groups=range(1, 195))
+        symfam.gen_pseudo_cases(tier, seed, 5, 8, n_pres=3, groups=range(1, 195))
     return _gen_cases(tier, seed) + pseudo
 
 
 def _gen_cases(tier, seed):
     if tier == "quick":
         return symfam.gen_cases(tier, seed, 5, per_group=1, n_pres=2, extra_random=60, special_bias=0.6) + symfam.gen_letter_cases(tier, seed, 5, 3)
-    return symfam.gen_cases(tier, seed, 5, per_group=8, n_pres=3, extra_random=400, special_bias=0.6) + symfam.gen_letter_cases(tier, seed, 5, 0)
+    return symfam.gen_cases(tier, seed, 5, per_group=20, n_pres=3, extra_random=1000, special_bias=0.6) + symfam.gen_letter_cases(tier, seed, 5, 0)
 
 
 def run_case(case):
